@@ -116,6 +116,11 @@ type replayCfg struct {
 
 var writerStops = map[string]bool{"deal": true, "kv.commit": true, "kv.get": true, "kv.iter": true, "notify": true}
 
+// the stepwise compactor (CStart / CIter / CDel) stops where its worker opens the iterator and at
+// every engine deletion
+var compactStops = map[string]bool{"kv.iter": true, "kv.del": true, "kv.delcur": true}
+var compactActions = map[string]bool{"CStart": true, "CIter": true, "CDel": true}
+
 func parkLabels(seqDetail, watchers bool) func(string, string, uint64, uint64) bool {
 	m := map[string]bool{
 		"deal": true, "kv.commit": true, "kv.get": true, "kv.iter": true, "notify": true,
@@ -129,6 +134,9 @@ func parkLabels(seqDetail, watchers bool) func(string, string, uint64, uint64) b
 	if seqDetail {
 		m["seq.cacheadd"] = true
 	}
+	// compaction deletes are only ever issued by the compactor; parking them costs nothing elsewhere
+	m["kv.del"] = true
+	m["kv.delcur"] = true
 	filler := map[string]bool{} // forwarding loops currently handling an empty (filler) batch; called under the scheduler lock
 	return func(proc, l string, a, b uint64) bool {
 		if l == "watch.process" {
@@ -245,16 +253,17 @@ func callOp(env *kb.Env, o specOp) opResult {
 
 // runState is the state of one behaviour replay.
 type runState struct {
-	cfg      replayCfg
-	env      *kb.Env
-	b        *behaviour
-	opIdx    map[string]int // next op (0-based) per writer
-	results  map[string][]opResult
-	resMu    sync.Mutex
-	diverged bool
-	notes    []string
-	watch    map[string]*watchState
-	maxRev   uint64
+	cfg        replayCfg
+	env        *kb.Env
+	b          *behaviour
+	opIdx      map[string]int // next op (0-based) per writer
+	results    map[string][]opResult
+	resMu      sync.Mutex
+	diverged   bool
+	notes      []string
+	watch      map[string]*watchState
+	maxRev     uint64
+	compactors map[string]bool
 }
 
 func (rs *runState) note(f string, a ...interface{}) {
@@ -293,6 +302,9 @@ var firstWriterAction = map[string]bool{"CreateDeal": true, "UpdateDeal": true, 
 
 // stopsFor returns the stop labels of a spec action.
 func (rs *runState) stopsFor(s specStep) map[string]bool {
+	if compactActions[s.A] {
+		return compactStops
+	}
 	switch s.P {
 	case "seq":
 		if rs.cfg.SeqDetail {
@@ -327,6 +339,22 @@ func (rs *runState) execStep(s specStep) error {
 	}
 	if s.A == "CompactReq" {
 		return rs.execCompact(s)
+	}
+	if s.A == "CStart" {
+		return rs.startCompact(s)
+	}
+	if s.A == "CDel" && s.F != "" && s.F != "ok" {
+		proc := s.P
+		kind := s.F
+		fired := false
+		env.Store.DelFault = func(p string, nth int, e gate.Event) string {
+			if p == proc && !fired {
+				fired = true
+				return kind
+			}
+			return ""
+		}
+		defer func() { env.Store.DelFault = nil }()
 	}
 	switch s.F {
 	case "err", "unka", "unkn":
@@ -373,6 +401,36 @@ func (rs *runState) execStep(s specStep) error {
 	return err
 }
 
+// startCompact issues one compaction request and lets it run until its worker is about to open
+// the iterator (specification: CStart).
+func (rs *runState) startCompact(s specStep) error {
+	env := rs.env
+	rs.compactors[s.P] = true
+	go func() {
+		env.Sched.Register(s.P)
+		minunc := backend.VerifRetryMinRevision(env.B)
+		env.Rec.Log(gate.Event{"e": "CInvoke", "p": s.P, "req": gate.Clip(s.X)})
+		resp, err := env.B.Compact(context.Background(), s.X)
+		hdr := uint64(0)
+		if err == nil {
+			hdr = resp.Header.GetRevision()
+		}
+		env.Rec.Log(gate.Event{"e": "CReturn", "p": s.P, "req": gate.Clip(s.X), "hdr": gate.Clip(hdr), "err": errStr(err), "minunc": gate.Clip(minunc)})
+		env.Sched.Finish(s.P)
+	}()
+	st, err := env.Sched.RunToStop(s.P, compactStops, rs.cfg.Timeout)
+	if err != nil {
+		return err
+	}
+	if st.Finished {
+		return fmt.Errorf("CStart: %s returned before opening an iterator", s.P)
+	}
+	if st.Label != "kv.iter" {
+		return fmt.Errorf("CStart: %s is at gate %s, specification expects kv.iter", s.P, st.Label)
+	}
+	return nil
+}
+
 // execCompact issues one compaction request and lets it run to completion.
 func (rs *runState) execCompact(s specStep) error {
 	env := rs.env
@@ -415,6 +473,13 @@ func (rs *runState) finishAll() {
 			} else if (!st.Exists || st.Finished) && rs.opIdx[p] < len(rs.b.WOps[p]) && rs.diverged {
 				if err := rs.launchWriter(p); err == nil {
 					env.Sched.RunToStop(p, writerStops, to)
+					progressed = true
+				}
+			}
+		}
+		for p := range rs.compactors {
+			if st := env.Sched.Peek(p); st.Exists && st.Parked {
+				if _, err := env.Sched.Step(p, noStops, to); err == nil {
 					progressed = true
 				}
 			}
@@ -565,7 +630,7 @@ func replayOne(cfg replayCfg, eng *kb.Engine, b *behaviour, rep *replayReport) [
 	env := kb.NewEnv(kb.Options{Engine: eng, KeyNames: keyNames, Gated: true, Park: parkLabels(cfg.SeqDetail, hasWatchers),
 		Base: cfg.Base, CacheSize: cfg.CacheSize, Record: true})
 	defer env.Retire()
-	rs := &runState{cfg: cfg, env: env, b: b, opIdx: map[string]int{}, results: map[string][]opResult{}, watch: map[string]*watchState{}}
+	rs := &runState{cfg: cfg, env: env, b: b, opIdx: map[string]int{}, results: map[string][]opResult{}, watch: map[string]*watchState{}, compactors: map[string]bool{}}
 	for k, st := range b.KInit {
 		if err := seedKey(env, k+1, st); err != nil {
 			rep.Errors++
